@@ -74,8 +74,8 @@ std::string log_text( unsigned from = 0 )
 
 // ---------------------------------------------------------------------------------------------------------------------
 // control PDUs of the bursts
-enum pdu_kind { P_REJ, P_UNK, P_VER, P_FEAT, P_UPD, P_TERM, P_KINDS };
-const char* pdu_name( int k ) { static const char* n[] = { "REJECT_IND", "UNKNOWN_RSP", "VERSION_IND", "FEATURE_REQ", "CONNECTION_UPDATE_IND", "TERMINATE_IND" }; return n[ k ]; }
+enum pdu_kind { P_REJ, P_UNK, P_VER, P_FEAT, P_UPD, P_TERM, P_KINDS, P_MAP = P_KINDS /* not part of the burst product of part B */ };
+const char* pdu_name( int k ) { static const char* n[] = { "REJECT_IND", "UNKNOWN_RSP", "VERSION_IND", "FEATURE_REQ", "CONNECTION_UPDATE_IND", "TERMINATE_IND", "CHANNEL_MAP_IND" }; return n[ k ]; }
 
 constexpr std::uint16_t interval_1 = 0x18, interval_2 = 0x20, supervision = 0x14;   // 30 ms, 40 ms, 200 ms
 constexpr std::uint8_t  terminate_reason = 0x13;
@@ -108,6 +108,7 @@ bool deliver( const burst& b )
         case P_FEAT: { const std::uint8_t c[] = { 0x08, 0xff, 0xff, 0xff, 0xff, 0xff, 0xff, 0xff, 0xff }; d[ 1 ] = sizeof c; std::memcpy( d + 2, c, sizeof c ); } break;
         case P_UPD:  { const std::uint8_t c[] = { 0x00, 1, 0, 0, std::uint8_t( new_interval ), std::uint8_t( new_interval >> 8 ), 0, 0, std::uint8_t( supervision ), 0, std::uint8_t( instant ), std::uint8_t( instant >> 8 ) };
                        d[ 1 ] = sizeof c; std::memcpy( d + 2, c, sizeof c ); } break;
+        case P_MAP:  { const std::uint8_t c[] = { 0x01, 0xff, 0xf7, 0xff, 0xff, 0x1f, std::uint8_t( instant ), std::uint8_t( instant >> 8 ) }; d[ 1 ] = sizeof c; std::memcpy( d + 2, c, sizeof c ); } break;
         case P_TERM: { const std::uint8_t c[] = { 0x02, terminate_reason }; d[ 1 ] = sizeof c; std::memcpy( d + 2, c, sizeof c ); } break;
         }
         p[ i ].p = d; p[ i ].n = 2u + d[ 1 ];
@@ -133,6 +134,7 @@ struct Judge
 {
     Ref& ref; mc::Ctx& c;
     std::uint32_t adv_before, ce_before, log_before;
+    bool missed_step = false;        // the step consists of missed connection events only
 
     Judge( Ref& r, mc::Ctx& cx ) : ref( r ), c( cx ), adv_before( ll->log.adv_count ), ce_before( ll->log.ce_count ), log_before( rec.n ) {}
 
@@ -187,15 +189,25 @@ struct Judge
         return ref.f_disconnect && ref.events_in_connection == 0 ? "disconnect-before-first-event" : ref.f_disconnect ? "local-disconnect" : "remote";
     }
 
+    // the reason is exact wherever the cause is unambiguous:
+    //   connection events missed and nothing else               -> 0x08 connection timeout
+    //   (after a local disconnect() also 0x16 / 0x22: the terminate procedure ends or times out)
+    //   a connection event took place: LL_TERMINATE_IND processed -> the reason it carried; an instant of an update that had
+    //   already passed -> 0x28; local disconnect() completed -> 0x16 ( 0x22 if the central never acknowledged )
     bool reason_ok( std::uint8_t r )
     {
         bool ok = false;
-        if ( ref.f_term )       ok = ok || r == terminate_reason;
+        if ( missed_step ) ok = r == 0x08;
+        else
+        {
+            if ( ref.f_term )   ok = ok || r == terminate_reason;
+            if ( ref.f_update ) ok = ok || r == 0x28;
+        }
         if ( ref.f_disconnect ) ok = ok || r == 0x16 || r == 0x22;
-        if ( ref.f_missed )     ok = ok || r == 0x08;
-        if ( ref.f_update )     ok = ok || r == 0x28 || r == 0x08;
         if ( ok ) { c.cls( mc::fmt( "closed(0x%02x)", r ) ); return true; }
-        c.fail( "closed:wrong-reason", mc::fmt( "closed with reason 0x%02x; causes seen: terminate %d, local disconnect %d, missed events %d, update %d", r, ref.f_term, ref.f_disconnect, ref.f_missed, ref.f_update ) );
+        c.fail( std::string( "closed:wrong-reason:" ) + ( missed_step ? "supervision-timeout" : ref.f_disconnect ? "local-disconnect" : "connection-event" ),
+                mc::fmt( "closed with reason 0x%02x %s; causes seen in this connection: terminate %d, local disconnect %d, missed events %d, update / channel map %d", r,
+                         missed_step ? "after missed connection events only (expected 0x08)" : "in a connection event", ref.f_term, ref.f_disconnect, ref.f_missed, ref.f_update ) );
         return false;
     }
 
@@ -231,6 +243,7 @@ struct World
         bursts.push_back( { 4, { P_REJ, P_UNK, P_REJ, P_UNK } } );
         bursts.push_back( { 5, { P_REJ, P_REJ, P_REJ, P_REJ, P_TERM } } );
         bursts.push_back( { 6, { P_UNK, P_VER, P_FEAT, P_UPD, P_TERM, P_REJ } } );
+        bursts.push_back( { 1, { P_MAP } } );
     }
 
     int num_events() const { return EV_FIRST_BURST + int( bursts.size() ); }
@@ -351,9 +364,11 @@ struct World
             ll->sim_empty_event(); event_happened = true;
             break;
         case EV_MISS:
+            j.missed_step = true;
             ll->sim_timeout(); ref.f_missed = 1;
             break;
         case EV_LOSE:
+            j.missed_step = true;
             ref.f_missed = 1;
             for ( int i = 0; i != 64 && !j.advertising_again(); ++i ) ll->sim_timeout();
             if ( !j.advertising_again() ) { c.fail( "supervision-timeout:never", "64 missed events in a row did not end the connection" ); return true; }
@@ -368,7 +383,7 @@ struct World
         default:
         {
             const burst& b = bursts[ ev - EV_FIRST_BURST ];
-            for ( unsigned i = 0; i != b.n; ++i ) { if ( b.k[ i ] == P_TERM ) ref.f_term = 1; if ( b.k[ i ] == P_UPD ) ref.f_update = 1; }
+            for ( unsigned i = 0; i != b.n; ++i ) { if ( b.k[ i ] == P_TERM ) ref.f_term = 1; if ( b.k[ i ] == P_UPD || b.k[ i ] == P_MAP ) ref.f_update = 1; }
             if ( !deliver( b ) )
             {   // only happens while received control PDUs pile up behind a deferred LL_CONNECTION_UPDATE_IND that never takes effect
                 // (instant handling, C21): the central would retransmit later - outside of this world, the branch ends here
